@@ -12,6 +12,7 @@ CONSTANTS
   FixFirstRep = FALSE
   FixShort = FALSE
   FixNilReq = FALSE
+  FixBadReq = FALSE
 
 INVARIANTS TypeOK OwnIndexOnly CorrectModuloKnown EmitDone
 CHECK_DEADLOCK FALSE
